@@ -11,7 +11,7 @@ CHECKS = {
  'C01': ('exploration',
          'bounded-exhaustive enumeration of memory images x environment answers on the real engines vs a reference machine',
          'Every image over a symbolic word alphabet (all address classes relative to the op, the IO cells, segment ends, '
-         'top of the address space) for several segment layouts (incl. several lazily-zero segments listed in descending address order), every 0/1/EOF input behaviour within the read bound, on '
+         'top of the address space) for several segment layouts (incl. several lazily-zero segments listed in descending address order, chains through 33..131 scattered pages, the repository's catalog programs), every 0/1/EOF input behaviour within the read bound, on '
          'featured(+trace)/fast/native with and without the last-ops ring at w=8/16/32/64; compared op by op with the '
          'reference machine (ip/flip/jump trace, IO calls, cause, op count, fault address). A coverage statement over a '
          'small scope, which is where per-op boundary bugs live.',
@@ -32,7 +32,7 @@ CHECKS = {
          'explicit-state search over the live device objects (deep-copied states, every method as a transition) vs a bit-packing / polling-protocol model',
          'Breadth-first search from every input of length <= 2 over a 10-byte alphabet, all sequences of read / write0 / write1 / '
          'get_output / get_output(allow_incomplete) up to depth 10 (12 thorough) on FixedIO and StandardIO (stdin/stdout replaced), '
-         'states de-duplicated by the full attribute dictionary; plus all 2^17-1 written bit strings of length <= 16, all texts of <= 6 bytes that can spell escape sequences (StandardIO echo), all 65 793 '
+         'states de-duplicated by the full attribute dictionary; plus all 2^17-1 written bit strings of length <= 16, all texts of <= 6 bytes that can spell escape sequences (StandardIO echo), the keyboard device's output side, all 65 793 '
          'inputs of length <= 2 read to EOF and beyond, all keyboard event scripts of <= 3 events over 32 event kinds (4-event '
          'scripts in thorough) x 40 reads via both constructors, and BrokenIO call sequences.',
          'A device state is its attribute dictionary (equal attributes, equal futures). Same-tic keyboard events are expected in script order.',
@@ -41,7 +41,7 @@ CHECKS = {
          'fault-point enumeration: every IO call index x fault kind x engine/storage/ring mode, state at the stop compared with the reference machine',
          'For every program of a deterministic set (first image per behaviour class of the C01 enumerations, an endless output '
          'loop, stl cat), a fault is injected at every IO call index: library IO error, IOReadOnEOF from read and from write, a '
-         'foreign exception, KeyboardInterrupt raised by the device, and a SIGINT made pending inside the call by a pure-C '
+         'foreign exception (ValueError, BrokenPipeError, the builtin EOFError), KeyboardInterrupt raised by the device, and a SIGINT made pending inside the call by a pure-C '
          'callable (deterministic), on featured / fast / native flat, hybrid, paged, ring and measurement modes. Exception '
          'mapping, op count, device-side calls, last-ops list and the memory read back through the retained DeviceMemory must '
          'equal R1 after exactly the ops executed before the stop.',
@@ -55,7 +55,7 @@ CHECKS = {
          'segment ends, far page) x values (0, all-ones, redirecting addresses, the w=64 fill constant) injected at each IO call, '
          'on 11 engine/storage modes: returned values, later program behaviour and final memory must equal R1 extended with the '
          'documented DeviceMemory semantics. The screen decoder is searched at byte level (every byte string to depth 8/9) and at '
-         'command level (all sequences of up to 3/4 commands over ~60 commands) against a model written from the docstring; the '
+         'command level (all sequences of up to 3/4 commands over ~60 commands, and all mode-switch streams of up to 5/6 commands over 3 modes, 2 palettes and 4 presenters) against a model written from the docstring; the '
          'two repository screen programs must present identical frames on every mode.',
          'Device accesses outside segments, screens larger than 64 pixels and behaviour after a rejected stream are outside the bound.',
          'DESIGN.md section 3 C19'),
@@ -66,13 +66,13 @@ CHECKS = {
          'partially overlapping and out-of-pool data ranges) and three-segment sequences, at w=8/16/32/64 and versions 0-3 (lzma '
          'presets 0/6/9): accepted => the Reader loads exactly the denoted image (every data word, zero tails probed at the '
          'threshold edges, neighbours invalid) and all versions give the same image; unrepresentable => FlipJumpWriteFjmException, '
-         'never a raw exception, a refused file or a differently loaded one; a rejected call leaves no trace (the sequence continues after it). Assembled stl programs are compared across versions and '
+         'never a raw exception, a refused file or a differently loaded one; a rejected call leaves no trace (the sequence continues after it); a call the format can represent is never accepted by one version and refused by another in the same writer state; data-less segments at every position. Assembled stl programs are compared across versions and '
          'against an independent decoder.',
          'Trusts the format model R2 (fjv/ref/fjm.py, ~100 lines). A representable input that the writer rejects is counted, not alarmed. Data pools are tiny except for one 18 MiB pool per lzma preset (finding F20).',
          'DESIGN.md section 3 C06'),
  'C10': ('fault_enumeration',
          'crash-point / corruption enumeration: every prefix, every header/table field substitution, payload byte substitutions, appended bytes, all short strings',
-         'Corpus = files produced by the real Writer/assembler for every width x version (single op, multi-segment with lazy tail, '
+         'Corpus = files produced by the real Writer/assembler for every width x version (single op, multi-segment with lazy tail, a reserve-only segment between segments with data, '
          'unreferenced data, shared data, empty data, assembled hello-world, incompressible 140-190 KB v3 payloads, presets 0/9). '
          'Every strict prefix (every byte for small files), every single-field substitution over an edge alphabet, single-byte payload '
          'substitutions, appended bytes (1 byte .. 3x64 KiB), recompressed v3 payloads of other lengths and all strings of length <= 2 are loaded: only an image or '
@@ -97,7 +97,7 @@ CHECKS = {
          '?: x operator combination in every position, non-associative comparison chains (must be rejected), 1500 literal forms '
          '(decimal/hex/binary, every printable char, every escape, all 256 \\xHH in both cases, strings up to 3 chars), and every '
          'pair tree x every partition of its three leaves into literal / constant / macro parameter / label / rep iterator '
-         '(value must not depend on the resolution stage), and ~1500 expressions of one program sharing four constants (using a constant under an operator never changes it); each value is observed completely (320 bits + sign) through '
+         '(value must not depend on the resolution stage), negative ternary conditions at every stage, and ~1500 expressions of one program sharing four constants (using a constant under an operator never changes it); each value is observed completely (320 bits + sign) through '
          'assembled op words and compared with Python-int evaluation.',
          'R5 holds an independent transcription of the pinned precedence table (the repository documents it only in the grammar). '
          'Expressions with an undefined sub-expression or more than 300 bits are skipped (counted).',
@@ -118,7 +118,7 @@ CHECKS = {
          '5 arithmetic faults x 16 evaluation stages (parse-time folding, constant definition/use, macro argument, rep count / '
          'iterator, pad / segment / reserve argument, late label resolution in flip / jump / wflip / segment, $) and ~75 further '
          'error templates (lexing, syntax, macros incl. recursion through rep, labels, constants, directives, ranges, files) at every width and version, '
-         'every sequence of <= 3 (4 thorough) primitive statements over a 16-statement alphabet, plus every deletion / duplication / swap / substitution (41-token alphabet) of every token of four seed programs (one '
+         'every sequence of <= 3 (4 thorough) primitive statements over a 16-statement alphabet, 45 long-token sources each in its own killable child process (a stall inside C code),  plus every deletion / duplication / swap / substitution (41-token alphabet) of every token of four seed programs (one '
          'with the stl): the outcome must be success or a FlipJumpException that is not the generic "Unknown exception" funnel '
          '(and names the offending identifier for templates that carry one), within 30 s, leaving no loadable output file.',
          'Astronomically large ** / << operands and expression nesting beyond 300 are not generated.',
@@ -131,7 +131,7 @@ CHECKS = {
          'every exact label and every separator-delimited fragment of every name (incl. fragments with ( ) . : { -) to exactly '
          'the addresses of the labels containing it. Histories over one debug file: every sequence of <= 4 (5) operations over save / assemble / '
          'replace / copy / load / handler x five spellings of the path; every read returns the table written last. Exact-label sets mixing existing and unknown labels; an stl program\'s table after '
-         'assemblies under other short-name schemes equals the fresh-process table.',
+         'assemblies under other short-name schemes equals the fresh-process table; expansion-path entries sit at a statement of an expansion they name.',
          'The naming format is deliberately not pinned.',
          'DESIGN.md section 3 C16'),
  'C04': ('model_checking',
@@ -158,7 +158,7 @@ CHECKS = {
          '32 hex pointer macro forms (read/write/xor/zero of hexes and bytes, 1- and 2-cell forms, *_and_inc, ptr_inc/dec/add/sub, '
          'ptr_index and read_nth/write_nth with negative indices, ptr_flip, ptr_flip_dbit, ptr_wflip, ptr_wflip_2nd_word, ptr_jump) at '
          'w=64/32 and 8 bit-namespace pointer macros at w=64/32/16, over all 64 ordered (previous target, target) pairs of an 8-cell '
-         'fenced buffer x cell and value alphabets (all 256 values of the pointed cell on a short target chain): exactly the pointed cell / destination changes (whole-image frame invariant, guard '
+         'fenced buffer x cell and value alphabets (all 256 values of the pointed cell on a short target chain; the buffer straddles a 0x10000-bit carry boundary of pointer arithmetic): exactly the pointed cell / destination changes (whole-image frame invariant, guard '
          'cells, every other variable) and to_flip / to_jump mirror their _var copies. Stack: every sequence of <= 4 (6 thorough) '
          'operations over push/pop of hexes, bytes, 3- and 4-vectors and sp_inc/dec within depth 0..6 against a Python list (popped '
          'values, sp, every stack cell, get_sp). Calls: every call tree of depth <= 2 (3), fan-out <= 2 over call / call with a '
@@ -181,16 +181,16 @@ CHECKS = {
          'with zero, huge, exactly-to-2^64 and overflowing lengths; set_words inside / straddling / wrapping / with bad items; '
          'get_word / set_word at the same addresses; run with ring lengths 0/1/3/-1/2^62, start_ip 0/1/w/2^64-1 and device callbacks '
          'that poke the memory, add segments, re-init the object (also with rejected arguments) or run recursively; __init__ on a live object, accepted and rejected; 5000 descending '
-         'segments) for 7 constructor configurations (32 thorough), depth 3 as (program load, run, anything) and (program load, rejected re-init, anything) (depth 4 thorough), plus '
+         'segments) for 7 constructor configurations (32 thorough), depth 3 as (program load, run, anything) and (program load, rejected re-init, anything), depth 4 as (load, run, late add_segment, accessor / run); an ownership probe compares the reference counts of every argument object before / after ~30 call shapes (depth 4 thorough), plus '
          'slices of the C01 / C07 / C19 drivers and .fjm files with adversarial segment tables - all on a clang '
          '-fsanitize=address,undefined build loaded with LD_PRELOAD: no sanitizer report, normal worker exit.',
          'As strong as the sanitizers on the explored sequences; reference-count leaks are not detected. Most workers use a 2^16-word flat window (FLIPJUMP_FLAT_MAX_WORDS) to keep the 64 MB default-window fill out of the per-run cost; one worker keeps the real default.',
          'DESIGN.md section 3 C11'),
  'C13': ('model_checking',
          'explicit-state search over assemble-call histories in one process (forked children of a never-assembled parent); probe bytes vs a fresh interpreter process',
-         'Every history of depth <= 2 (3 thorough) over 20 assemble actions (stl programs at two widths, no-stl, werror, a parse failure '
+         'Every history of depth <= 2 (3 thorough) over 23 assemble actions (stl programs at two widths, no-stl, werror, a parse failure '
          'inside nested namespaces, a lexing error, an unknown macro after the cache was filled, recursion overflow with depth 5, depths '
-         '2000 and 4000, programs defining top-level constants, programs behind a 1- or 2-file stl prefix with one to three user files, a rep-heavy program, the stl under other short names, another user short name, another directory) followed by ten '
+         '2000 and 4000, programs defining top-level constants, programs behind a 1- or 2-file stl prefix with one to three user files, a 60 000-label program, a warning-raising program at a fixed path with and without warnings-as-errors, a rep-heavy program, the stl under other short names, another user short name, another directory) followed by twelve '
          'probe assemblies (different widths, versions, werror, programs using the constants\' names as labels, expressions nested 400 / 700 deep): the .fjm and .fjd bytes of every probe must equal those of a brand-new '
          'interpreter process (two reference processes with different hash seeds and directories must agree as well).',
          'Each history runs in a forked child of a parent that imported flipjump but never assembled. The process-global state key is reported, not used to merge histories.',
@@ -201,7 +201,7 @@ CHECKS = {
          'garbage, continue, the three continue-all spellings incl. mixed case, reads of words / unaligned / unmapped addresses / hex, bit '
          'and byte variables over a data segment with distinctive bits, help, unknown commands, empty lines, quit; running out = EOF) x '
          'every breakpoint subset of size <= 2 of the visited addresses + a never-visited one x 12 programs per width, through '
-         'fjm_run.run(breakpoint_handler=...), plus sessions whose breakpoints are asked for by label (all subsets of 3 existing + 3 unknown labels): pause list (address, ops executed), values shown by reads, quit => keyboard-interrupt at '
+         'fjm_run.run(breakpoint_handler=...), plus sessions whose breakpoints are asked for by label (all subsets of 3 existing + 3 unknown labels) and by substring sets (incl. regular-expression metacharacters), and reads of the word the program will fault on: pause list (address, ops executed), values shown by reads, quit => keyboard-interrupt at '
          'the pause op count, otherwise output / IO calls / cause / op count / final memory equal the undebugged reference run.',
          'Messages are parsed only for addresses, op counts and values. Label / substring breakpoints are resolved in C16.',
          'DESIGN.md section 3 C15'),
@@ -211,7 +211,7 @@ CHECKS = {
          'thorough adds w=16, --werror and all combinations) through `fj files -o`, `fj --asm -o` + `fj --run` (subprocesses of '
          'python -m flipjump.flipjump_cli on the working tree) and the Python API with the same explicit options: the three .fjm '
          '(and .fjd) files must be byte-identical, header width/version as requested or defaulted, program output and termination '
-         'identical (the API routes run in a process where a caller has taken flipjump.get_stl_paths() and appended to / truncated / reversed its list); defaults observed directly: temporary file of the one-step flow is width 64 / version 1, with -o version 3, stl '
+         'identical (six spellings of one source path incl. a symlinked directory + `..`; every history of <= 3 API runs on the default terminal device vs fresh fj processes; the API routes run in a process where a caller has taken flipjump.get_stl_paths() and appended to / truncated / reversed its list); defaults observed directly: temporary file of the one-step flow is width 64 / version 1, with -o version 3, stl '
          'included unless --no_stl.',
          'The one-step temporary file is observed by wrapping flipjump_cli.TemporaryDirectory in-process.',
          'DESIGN.md section 3 C20'),
